@@ -540,6 +540,7 @@ func (s *SourceControl) WriteComment(comment *string, reply *bool) error {
 			fp, err := os.Create(commentFilename)
 			if err != nil {
 				s.queuedResults <- err
+				return // exactly one reply per request: a second one would block the core loop for ever
 			}
 			defer fp.Close()
 			fp.WriteString(*comment)
